@@ -39,7 +39,8 @@ ASSUMPTIONS = [
     'the tilt of a surface is the matrix Rx(x)Ry(y)Rz(z) of its (z, y, x) angles and local = R (X - P); '
     'make_rotation_matrix and Surface.R are compared with that transcription',
     'rays whose crossing of the local z=0 plane lies outside the domain of the sag (the square root is imaginary '
-    'there) are outside the scope of Spencer & Murty\'s iteration and excluded by the reference (counted); '
+    'there), or that travel parallel to that plane (|local direction cosine m| < 1e-6: the crossing does not exist), are outside the scope of '
+    'Spencer & Murty\'s iteration and excluded by the reference (counted as start-outside); '
     'total internal reflection is excluded by the reference radicand (counted)',
     'rays that meet the surface at grazing incidence (|cos i| < 0.02 at the candidate intersection nearest the local z=0 plane, a near-double root whose '
     'position is ill-conditioned) are excluded by the reference (counted as outcome grazing)',
@@ -59,16 +60,20 @@ TOL_UNIT = 1e3 * EPS   # | |S'| - 1 |;                                          
 # ---------------------------------------------------------------------------------------------
 # reference geometry
 
-def ref_rotmat(zyx, radians=False):
+def ref_rotmat(zyx, radians=False, cond=False):
     """Rx(x) Ry(y) Rz(z) for angles given (in degrees unless radians) in the order (z, y, x), missing trailing angles = 0; identity for None."""
     if zyx is None:
         return np.eye(3)
+    if isinstance(zyx, np.ndarray) and zyx.shape == (3, 3):
+        return np.abs(zyx) if cond else zyx
     a = [0.0, 0.0, 0.0]
     a[:len(zyx)] = [float(v) if radians else math.radians(v) for v in zyx]
     g, b, al = a
     Rx = np.array([[1, 0, 0], [0, math.cos(al), -math.sin(al)], [0, math.sin(al), math.cos(al)]])
     Ry = np.array([[math.cos(b), 0, math.sin(b)], [0, 1, 0], [-math.sin(b), 0, math.cos(b)]])
     Rz = np.array([[math.cos(g), -math.sin(g), 0], [math.sin(g), math.cos(g), 0], [0, 0, 1]])
+    if cond:
+        return np.abs(Rx) @ np.abs(Ry) @ np.abs(Rz)      # elementwise sum of |terms|: rounding bound of every entry
     return Rx @ Ry @ Rz
 
 
@@ -148,10 +153,10 @@ class Geo:
             self.nr = float(desc['nr'])
 
     # -- the real object ----------------------------------------------------------------------
-    def build(self, R, P_arg=None):
-        """Construct the real Surface; P_arg overrides the form in which the position is handed over."""
+    def build(self, R, P_arg=None, R_arg=None):
+        """Construct the real Surface; P_arg / R_arg override the form in which position / tilt are handed over."""
         d = self.desc
-        typ, P, Rz = self.typ, (self.sd['P'] if P_arg is None else P_arg), self.sd.get('R')
+        typ, P, Rz = self.typ, (self.sd['P'] if P_arg is None else P_arg), (self.sd.get('R') if R_arg is None else R_arg)
         npr = self.sd.get('n', 1.0)
         n = None if npr is None else (lambda wvl, npr=float(npr): npr)     # None: surface carries no index function
         k = self.kind
@@ -324,7 +329,7 @@ def judge_hop(R, g, n0, Pin, Sin, Pout, Sout, live, hop, tally):
     with np.errstate(all='ignore'):
         s0 = -p[:, 2] / d[:, 2]
         p1 = p + s0[:, None] * d
-        dom = np.isfinite(g.sag(p1[:, 0], p1[:, 1])) & np.isfinite(s0)
+        dom = np.isfinite(g.sag(p1[:, 0], p1[:, 1])) & np.isfinite(s0) & (np.abs(d[:, 2]) >= 1e-6)
     tally['miss'] += int((live & ~hit).sum())
     tally['start-outside'] += int((live & hit & ~dom).sum())
     j = live & hit & dom
@@ -499,9 +504,12 @@ def check_surface_object(R, g, surf):
     Rm = getattr(surf, 'R', None)
     if g.sd.get('R') is None:
         ok = R.expect(Rm is None, 'Surface:R', 'Surface.R is not None for R=None') and ok
+    elif Rm is None and np.array_equal(g.Rm, np.eye(3)):
+        pass                                   # an exactly untilted surface may be stored as R=None: same rigid motion
     else:
         Rm = as_array(R, Rm, (3, 3), 'Surface:R', 'Surface.R')
-        ok = Rm is not None and R.expect_close(Rm, g.Rm, 8 * EPS, 'Surface:R', f'Surface.R for R={g.sd["R"]}') and ok
+        # every entry to its own rounding bound (8 eps x sum of |terms|): a tilt of 1e-14 rad is an entry of 1e-14, not "0 within 1e-9"
+        ok = Rm is not None and R.expect_close(Rm, g.Rm, 8 * EPS * ref_rotmat(g.sd['R'], cond=True), 'Surface:R', f'Surface.R for R={g.sd["R"]}') and ok
     return bool(ok)
 
 
@@ -931,6 +939,168 @@ def long_cases(tier):
     return out
 
 
+# -- tilt magnitude alphabet ----------------------------------------------------------------------------------
+
+TILTS_DEG = [0.0, 1e-12, 1e-9, 4e-7, 1e-6, 1e-3, 1.0, 10.0, 90.0]
+TILT_AXES = {'z': [1.0, 0.0, 0.0], 'y': [0.0, 1.0, 0.0], 'x': [0.0, 0.0, 1.0], 'yx': [0.0, 1.0, -0.7], 'zyx': [1.3, -1.0, 0.6]}
+
+
+def run_tilt(case, seed, R):
+    """A tilt must have an effect proportional to it, however small: besides the hop oracle (absolute tolerances) the rays
+    travelling along +z that meet the vertex (every such ray for a plane) are judged RELATIVE to the deviation itself."""
+    th = case['theta']
+    ang = [m * th for m in TILT_AXES[case['axes']]]
+    sd = {'shape': case['shape'], 'P': 0.0, 'R': ang, 'typ': case['typ'], 'n': case['n']}
+    g = Geo(sd, seed)
+    R_arg = np.array(g.Rm) if case['form'] == 'matrix' else (tuple(ang) if case['form'] == 'tuple' else None)
+    if case['form'] == 'matrix':
+        g.sd = dict(sd, R=np.array(g.Rm))              # the matrix itself is the request
+    z0 = -2.0
+    P0, S0 = bundle('quick', z0=z0)
+    surf = g.build(R, R_arg=R_arg)
+    if surf is FAILED:
+        return
+    tally = new_tally()
+    trace_and_judge(R, [g], P0, S0, case['n0'], tally, form='batch', prebuilt=[surf])
+    report_tally(R, tally)
+    # ---- scaled oracle (independent of what the Surface object claims its R to be) ----
+    nrm = g.Rm[2, :]                                   # the local z axis in global coordinates; tilt enters only through it
+    if abs(nrm[2]) < 0.1:
+        R.outcome('edge-on')
+        return
+    ax = P0[:25]                                       # the axial direction of the bundle: d = +z, 5x5 lattice
+    sel = np.ones(25, bool) if g.kind == 'plane' else (np.hypot(ax[:, 0], ax[:, 1]) == 0)
+    Pa, Sa = ax[sel].copy(), S0[:25][sel].copy()
+    out = R.call(sm.raytrace, [surf], Pa.copy(), Sa.copy(), WVL, n_ambient=case['n0'], sig='raytrace:exception:tilt')
+    if out is FAILED or not (isinstance(out, tuple) and len(out) == 2):
+        return
+    Ph = as_array(R, out[0], (2, len(Pa), 3), 'raytrace:shape', 'P_hist')
+    Sh = as_array(R, out[1], (2, len(Pa), 3), 'raytrace:shape', 'S_hist')
+    if Ph is None or Sh is None:
+        return
+    tilt = float(np.hypot(nrm[0], nrm[1]))             # sine of the tilt of the surface normal
+    cz = nrm[2]
+    if g.typ == 'refl':
+        wantS = np.array([0.0, 0.0, 1.0]) - 2 * cz * nrm
+    else:
+        mu = case['n0'] / g.nprime
+        wantS = mu * np.array([0.0, 0.0, 1.0]) + (math.sqrt(1 - mu * mu * (1 - cz * cz)) - mu * cz) * nrm
+    wantz = -(nrm[0] * Pa[:, 0] + nrm[1] * Pa[:, 1]) / cz        # the tilted tangent plane through the vertex, cancellation-free
+    mag = case['mag']
+    # rounding floors: proportional to the tilt, plus the resolution of the vertex position (ulp of the launch distance)
+    floorS = 16 * EPS * tilt + 64 * EPS * abs(g.c) * (1 + abs(z0)) * (g.kind != 'plane')
+    floorz = 32 * EPS * abs(z0)
+    R.expect_close(Sh[1], np.tile(wantS, (len(Pa), 1)), 1e-9 * np.abs(wantS) + floorS, f'tilt:deviation:{mag}',
+                   f'outgoing direction of the +z ray at the vertex of a surface tilted by {ang} deg ({case["form"]}); the deviation is ~2 x tilt = {2 * tilt:.3e}')
+    R.expect_close(Ph[1][:, 2], wantz, 1e-9 * np.abs(wantz) + floorz, f'tilt:offset:{mag}',
+                   f'height of the hit point on the tilted vertex tangent plane, r x tilt up to {10 * tilt:.3e}, tilt {ang} deg ({case["form"]})')
+    R.nontrivial(tilt > 0)
+    R.outcome(f'tilt={mag}')
+
+
+def tilt_cases(tier):
+    shp = [{'kind': 'plane'}, {'kind': 'sphere', 'c': 1 / 50}, {'kind': 'conic', 'c': 1 / 80, 'k': -1.0}]
+    out = []
+    for s_ in shp:
+        for th in TILTS_DEG:
+            for axes in TILT_AXES:
+                for form in ('angles', 'matrix') + (('tuple',) if tier == 'thorough' else ()):
+                    for t in TYPES[:2]:
+                        for sign in ((1, -1) if tier == 'thorough' and th else (1,)):
+                            out.append({'shape': s_, 'theta': sign * th, 'mag': f'{th:g}deg', 'axes': axes, 'form': form,
+                                        'typ': t['typ'], 'n': t['n'], 'n0': t['n0']})
+    return out
+
+
+# -- spellings of the rays -------------------------------------------------------------------------------------------
+
+RAY_FORMS = ['f64', 'f32', 'i64', 'i32', 'list-int', 'list-float']
+
+
+def as_form(a, form):
+    if form == 'f64':
+        return np.array(a, dtype=np.float64)
+    if form == 'f32':
+        return np.array(a, dtype=np.float32)
+    if form == 'i64':
+        return np.array(a, dtype=np.int64)
+    if form == 'i32':
+        return np.array(a, dtype=np.int32)
+    if form == 'list-int':
+        return np.array(a, dtype=np.int64).tolist()
+    return np.array(a, dtype=np.float64).tolist()
+
+
+def form_class(form):
+    return 'int' if form in ('i64', 'i32', 'list-int') else ('f32' if form == 'f32' else 'f64')
+
+
+def run_rayforms(case, seed, R):
+    """However P and S are spelled (python ints, integer / float32 arrays, mixed, one ray or a batch), the trace equals
+    the float64 trace of the same numbers."""
+    pl = [{'shape': {'kind': 'conic', 'c': 1 / 200, 'k': -1.0}, 'P': 0.0, 'R': None, 'typ': 'refl', 'n': None},
+          {'shape': {'kind': 'sphere', 'c': 1 / 40}, 'P': [0.0, 0.0, 0.0], 'R': [0, 5, 3], 'typ': 'refr', 'n': 1.5},
+          {'shape': {'kind': 'plane'}, 'P': [0.0, 0.0, 30.0], 'R': None, 'typ': 'refr', 'n': 1.0}]
+    geos = [Geo(pl[i], seed) for i in case['seq']]
+    zd = case['zdir']
+    lat = [-10, -5, 0, 5, 10]
+    P0 = np.array([[x, y, -20 * zd] for y in lat for x in lat], dtype=float)      # integer-valued: every form can express it
+    S0 = np.tile([0.0, 0.0, float(zd)], (25, 1))
+    surfs = [g.build(R) for g in geos]
+    if any(sf is FAILED for sf in surfs):
+        return
+    tally = new_tally()
+    base = trace_and_judge(R, geos, P0, S0, 1.0, tally, form='batch', prebuilt=surfs)     # the float64 trace, judged hop by hop
+    report_tally(R, tally)
+    if base is None:
+        return
+    Ph0, Sh0 = base
+    pc, sc = form_class(case['Pform']), form_class(case['Sform'])
+    sig = 'raytrace:rayform:P-int' if pc == 'int' else f'raytrace:rayform:P-{pc}:S-{sc}'
+    J = len(geos)
+    # float32 positions may come back in float32 ("any float dtype"): then, and only then, single-precision agreement
+    tolP = (4 * float(np.finfo(np.float32).eps) if pc == 'f32' else 64 * EPS) * (1 + np.abs(np.nan_to_num(Ph0)).max())
+    tolS = 4 * float(np.finfo(np.float32).eps) if pc == 'f32' else 64 * EPS
+    if case['ray'] == 'batch':
+        out = R.call(sm.raytrace, surfs, as_form(P0, case['Pform']), as_form(S0, case['Sform']), WVL, n_ambient=1.0, sig=sig + ':exception')
+        got = None
+        if out is not FAILED and isinstance(out, tuple) and len(out) == 2:
+            got = (out[0], out[1])
+            shp = (J + 1, 25, 3)
+    else:
+        i = case['ray_index']
+        out = R.call(sm.raytrace, surfs, as_form(P0[i], case['Pform']), as_form(S0[i], case['Sform']), WVL, n_ambient=1.0, sig=sig + ':exception')
+        got = None
+        if out is not FAILED and isinstance(out, tuple) and len(out) == 2:
+            got = (out[0], out[1])
+            shp = (J + 1, 3)
+            Ph0, Sh0 = Ph0[:, i], Sh0[:, i]
+    if got is None:
+        return
+    for arr, want, tol, what in ((got[0], Ph0, tolP, 'P_hist'), (got[1], Sh0, tolS, 'S_hist')):
+        try:
+            kind = np.asarray(arr).dtype.kind
+        except Exception:   # noqa
+            kind = '?'
+        R.expect(kind == 'f', sig + ':dtype', f'{what} has dtype kind {kind!r}: a ray history must be floating point')
+        a = as_array(R, arr, shp, sig + ':shape', what)
+        if a is not None:
+            R.expect_close(a, want, tol, sig, f'{what} for P as {case["Pform"]}, S as {case["Sform"]} ({case["ray"]}) vs the float64 trace')
+    R.nontrivial()
+    R.outcome(f'P-{pc}:S-{sc}')
+
+
+def rayform_cases(tier):
+    out = []
+    for seq in ([0], [1], [1, 2]) if tier == 'quick' else ([0], [1], [1, 2], [0, 1], [2, 0]):
+        for zd in ((-1,) if seq == [0] else (1,)) if tier == 'quick' else (1, -1):
+            for pf in RAY_FORMS:
+                for sf in RAY_FORMS:
+                    out.append({'seq': seq, 'zdir': zd, 'Pform': pf, 'Sform': sf, 'ray': 'batch'})
+                    out.append({'seq': seq, 'zdir': zd, 'Pform': pf, 'Sform': sf, 'ray': 'single', 'ray_index': 7})
+    return out
+
+
 # -- far ray origins ---------------------------------------------------------------------------------
 
 def run_far(case, seed, R):
@@ -1149,6 +1319,17 @@ def plan(tier, seed):
                   f'{21 if tier == "quick" else 31}^2 lattice scaled to 0.7 R (includes the axis) x the four directions, bundles travelling +z AND -z, x 2 poses (untilted, tilted+decentred) x '
                   '{reflect, refract (1,1.5), (1.5,1)}; plus six two-surface prescriptions over a pool of four large posed surfaces (mirror -> refractor met travelling -z, refractor -> mirror) '
                   'with both bundles; same hop oracle, misses excluded by the reference; outcome labels path<-128 / path>+128 count the rays whose reference path length is that long', reset=rs_),
+        ScopeUnit('tilt', tilt_cases(tier), run_tilt,
+                  'tilt magnitude alphabet {0, 1e-12, 1e-9, 4e-7, 1e-6, 1e-3, 1, 10, 90} deg x axis patterns {z, y, x, (y,x), (z,y,x)} x forms {angle list, 3x3 matrix[, tuple, negative '
+                  'angles in thorough]} x {plane, sphere, parabola} at the origin x {reflect, refract (1,1.5)}: the 100-ray bundle through the hop oracle, Surface.R to the rounding bound '
+                  'of every entry, AND a scaled oracle: for +z rays at the vertex (all 25 lattice rays for the plane) the outgoing direction and the height of the hit point are compared '
+                  'with closed forms in the tilted normal to a RELATIVE 1e-9 of each component plus a rounding floor proportional to the tilt (16 eps x tilt; hit height: 32 eps x launch '
+                  'distance), so a tilt of 1e-14 rad must deviate the ray by 2e-14 rad and theta = 0 must leave exact zeros', reset=rs_),
+        ScopeUnit('rayforms', rayform_cases(tier), run_rayforms,
+                  'spellings of the rays: P x S each in {float64, float32, int64, int32 arrays, python list of ints, python list of floats} (all 36 pairs, so mixed float/int too) x '
+                  '{batch of 25, single 1-D ray} x prescriptions {parabolic mirror hit travelling -z, tilted refracting sphere, sphere+plane[, more in thorough]}; integer-valued lattice '
+                  'and axial directions so that every form expresses the same rays; the float64 trace is judged hop by hop and every other spelling must return floating-point '
+                  'histories equal to it (64 eps; single precision only when the positions were given in float32)', reset=rs_),
         ScopeUnit('far', far_cases(tier), run_far,
                   'ray origins far from the surface: the 100-ray bundle launched |Z0| in {1e3, 1e7} (thorough: also 1e5, 1e9) before and after the local z=0 plane (both directions of '
                   'travel) x 7 shapes (plane, spheres, parabola, ellipsoid, off-axis parabola, Q-type) x 2 poses x {reflect, refract (1,1.5), (1.5,1)}; the height above the surface '
